@@ -141,6 +141,19 @@ func (c *streamCtx) histShapes(prop string) []func(v int) *histSpec {
 	}
 	// pods move between scans onto tainted / force-tainted nodes
 	shapes["pods-move"] = func(v int) *histSpec {
+		if v%2 == 1 { // nothing changes the node count before the pod arrives (a stale pods-per-node map would not notice)
+			init := c.histWorld(3, 55, func(b *gbuild) {
+				b.o.MinNodes = 0
+				b.node(3, 9000, escAge(base, 290))
+				b.node(4, 9100, escAge(base, 100))
+			})
+			return hist(init, "pods-move",
+				step(0, c.off(), "tainted nodes are empty but young"),
+				step(20, c.off(), "a pod lands on the tainted node whose soft grace period is now over", podEdit("g1", "m1", "g1-n3", 100, gib)),
+				step(200, c.off(), "the other one: pod arrives, leaves, arrives", podEdit("g1", "m2", "g1-n4", 100, gib)),
+				step(400, c.off(), "m1 leaves", hEdit{Op: "del_pod", Pod: "m1"}),
+				step(400, c.off(), "hard grace period over for n4"))
+		}
 		init := c.histWorld(3, 55, func(b *gbuild) {
 			b.o.MinNodes = 0
 			b.node(3, 9000, escAge(base, 290))
